@@ -37,7 +37,9 @@ def run_cases(rec, tier, seed):
                     if with_counts:
                         counts = {v: int((a == v).sum()) for v in vals}
                     if rnd.random() < (0.25 if tier == "quick" else 1.0):
-                        idx = rec.from_array(a, common=common, mapping=mapping, counts=counts)
+                        form = rnd.choice(["int64", "int64", "uint8", "int32", "int16", "list"])
+                        arg = a.tolist() if (form == "list" and a.ndim == 1) else a.astype(form if form != "list" else "int64")
+                        idx = rec.from_array(arg, common=common, mapping=mapping, counts=counts)
                         if idx is not None and rnd.random() < 0.5:
                             way_back(rec, idx, rnd)
     # larger / sparser arrays: the row-scan construction strategy needs >= 5 distinct values and few uncommon cells
